@@ -262,6 +262,31 @@ pub fn run(ctx: &Ctx, rec: &mut Rec) {
                         }
                     }
                 }
+                // blank setup: the circuit synthesised with every witness value missing (the way key generation
+                // is usually run). The gadgets may refuse (AssignmentMissing: counted); if a system is
+                // produced it must be the very same system as in proving mode.
+                {
+                    let inp2 = inp.clone();
+                    let res = guarded(|| {
+                        crate::r1::BLANK.with(|bl| bl.set(true));
+                        let run = execute(g, &inp2, true);
+                        crate::r1::BLANK.with(|bl| bl.set(false));
+                        if run.synth_ok { Some(shape(&run.cs)) } else { None }
+                    });
+                    crate::r1::BLANK.with(|bl| bl.set(false));
+                    match res {
+                        Ok(Some(sh)) => {
+                            rec.count("blank_setup_syntheses_succeeded", 1);
+                            if let Some((r0, c0)) = reference.get(&param) {
+                                rec.count("shape_comparisons", 1);
+                                if r0 != &sh {
+                                    rec.violation(format!("{P}:{name}:blank-setup-shape"), format!("{}: setup-mode synthesis without witness values gives shape {:?}, but {:?} on `{c0}`", g.name, sh, r0), inp_json(inp));
+                                }
+                            }
+                        }
+                        _ => rec.count("blank_setup_syntheses_refused", 1),
+                    }
+                }
             }
         }
     });
@@ -338,6 +363,20 @@ pub fn run(ctx: &Ctx, rec: &mut Rec) {
                         Ok(Err(e)) => rec.violation(format!("{P}:{form}:synthesis-error"), format!("circuit {nm} on `{class}`: {e}"), json!({})),
                         Err(pn) => rec.violation(format!("{P}:{form}:panic"), format!("circuit {nm} on `{class}`: {pn}"), json!({})),
                     }
+                }
+            }
+            // the crate's own counting helper (CountConstraints) must report the same system
+            if let (Some((r0, _)), Some((pc, class))) = (&reference, mine.first()) {
+                use decaf377::r1cs::CountConstraints;
+                let pc2 = (*pc).clone();
+                rec.count("count_constraints_checks", 1);
+                match guarded(move || pc2.num_constraints_and_instance_variables()) {
+                    Ok((nc, ni)) => {
+                        if nc != r0.ncons || ni != r0.ninst {
+                            rec.violation(format!("{P}:{form}:count-constraints"), format!("CountConstraints reports ({nc} constraints, {ni} instance variables) for {nm} on `{class}`, synthesis gives ({}, {})", r0.ncons, r0.ninst), json!({}));
+                        }
+                    }
+                    Err(pn) => rec.violation(format!("{P}:{form}:count-constraints-panic"), pn, json!({})),
                 }
             }
             // pinned keys: validated deserialisation, query lengths against the matrices
